@@ -401,6 +401,10 @@ func (p Prop[C]) Fuzz(f *testing.F, seeds [][]byte, decode func([]byte) (C, bool
 		if !ok {
 			return
 		}
+		if p.Track && os.Getenv("VERIF_TRACK") != "" {
+			cb, _ := json.Marshal(map[string]any{"property": p.ID, "case": c})
+			os.WriteFile(filepath.Join(rec.OutDir(), "current.json"), cb, 0o644)
+		}
 		res := p.Run(c)
 		n++
 		if res.NonTrivial {
